@@ -76,7 +76,9 @@ func prefixes(kind string) [][]byte {
 	for n := uint32(maxMsg - 8); n <= maxMsg+24; n++ {
 		ns = append(ns, n)
 	}
-	ns = append(ns, 1<<31-1, 1<<31, 1<<31+1, 1<<32-1, 1<<32-4, 0xeeeeeeee, 0xdddddddd)
+	// well beyond the limit (a reader whose limit check is weakened allocates these: the monitor's
+	// failing input), then the sign / wrap-around boundaries and the tag words
+	ns = append(ns, maxMsg+8192+64, 1<<25, 1<<26+4, 1<<28, 1<<31-1, 1<<31, 1<<31+1, 1<<32-1, 1<<32-4, 0xeeeeeeee, 0xdddddddd)
 	for _, n := range ns {
 		out = append(out, le32(n))
 	}
